@@ -28,6 +28,16 @@ values only through "strictly above the threshold"), rotating with the case inde
     "8-connected" is asked for as con8 = 1, 2, 8 or -1 (documented: 4-connected if con8 == 0).  The kernel's banner
     goes to a swallowed stdout (swallow_stdout: file descriptor 1 -> /dev/null around the replay loops).
 
+  * entry points of the labelimage wrapper: every case's image goes through labelimage.labelpeaks AND through
+    labelimage.peaksearch (the entry the peak search scripts use: astype, labelpeaks, measurepeaks), each time into a
+    label buffer that holds POISON (= any content of an earlier frame); blim / npk are judged after each call.
+  * SERIES on one labelimage object (LabelSeries.tla, run_series): a behaviour = the calls peaksearch / labelpeaks /
+    mergelast on ONE object, frames without a pixel above the threshold (all below it, all EQUAL to it, all exactly 0)
+    at every position; blim and npk are compared with the specification's labels after EVERY labelling call.  The
+    threshold (the same for the series, or changing from call to call), the values, the input dtype (float32, float64,
+    uint16, int32: peaksearch converts) and the state of a new object's buffers (zeros / POISON when the series never
+    calls mergelast) rotate with the behaviour index.
+
 Used in-process by props/c11.py and as a script under the ASan environment:
     python c11_replay.py <cases.jsonl> <out.json>
 """
@@ -153,6 +163,102 @@ def run_labelpeaks(labelimage, data, thr, shape, reuse=None, verbose=0):
     li.verbose = verbose
     li.labelpeaks(data, thr)
     return li.blim, li.npk
+
+
+def new_labelimage(labelimage, shape, poison=True):
+    """a labelimage object writing to nowhere; poison: both label buffers hold POISON (any earlier content)"""
+    with contextlib.redirect_stdout(io.StringIO()):
+        li = labelimage.labelimage(tuple(shape), fileout=io.StringIO(), sptfile=io.StringIO())
+    if poison:
+        li.blim[:] = POISON
+    return li
+
+
+SERIES_KINDS = ["float32", "float64", "uint16", "int32"]
+THRS_NONNEG = [t for t in THRS if t >= 0]
+
+
+def series_frame(code, kind, ns, nf, thr, dkind, variant):
+    """(array handed to peaksearch / labelpeaks, threshold, boolean image of the pixels strictly above) for one frame of a
+    series.  code: bit p = pixel p strictly above; kind: "mixed" (not-above pixels equal to / one float32 below / 1 below
+    the threshold), "below" (all strictly below), "equal" (all equal to the threshold), "zero" (all exactly 0, thr >= 0).
+    The classification is checked here in exact arithmetic (float32 / integers -> Python numbers), not by the kernels."""
+    bits = np.array([(code >> p) & 1 for p in range(ns * nf)]).reshape(ns, nf)
+    p = np.arange(ns * nf).reshape(ns, nf)
+    if dkind in ("uint16", "int32"):
+        t = INT_THR[variant % 4]
+        if kind == "below" and (t == 0 and dkind == "uint16"):
+            t = 7
+        lo = {"mixed": t - ((p + variant) % 2) * (1 if t > 0 or dkind == "int32" else 0), "below": t - 1 - (p % 2) * (1 if t > 1 else 0),
+              "equal": t + 0 * p, "zero": 0 * p}[kind]
+        arr = np.where(bits == 1, t + 1 + ((p + variant // 4) % 2), lo).astype(getattr(np, dkind))
+        t = float(t)
+    else:
+        t = thr
+        t32, lo, hi = f32_above_below(t)
+        v = variant // len(THRS)
+        low = {"mixed": lo[(2 * p + v) % 3], "below": lo[1 + (p + v) % 2], "equal": np.full((ns, nf), t32), "zero": np.zeros((ns, nf), np.float32)}[kind]
+        arr = np.where(bits == 1, hi[(p + v) % 3], low).astype(np.float32)
+        if dkind == "float64":
+            arr = arr.astype(np.float64)
+    t32 = float(np.float32(t))
+    vals = np.asarray(arr, np.float32).astype(np.float64)        # what the kernel receives (exact in float64)
+    above = vals > t32
+    ok = np.array_equal(above, bits == 1)
+    if kind == "below":
+        ok = ok and bool((vals < t32).all())
+    if kind == "equal":
+        ok = ok and bool((vals == t32).all())
+    if kind == "zero":
+        ok = ok and bool((vals == 0).all())
+    if not ok:
+        raise AssertionError("series_frame: frame %d/%s (%s, threshold %r) is not in its class" % (code, kind, dkind, t))
+    return arr, t, above
+
+
+def run_series(beh, mods, idx=0):
+    """one behaviour of LabelSeries.tla on ONE labelimage object; blim / npk judged after every labelling call against
+    the specification's labels.  Returns the list of problem strings (empty = conforms)."""
+    cImageD11, labelimage, sparseframe = mods
+    ns, nf = beh["ns"], beh["nf"]
+    calls = beh["calls"]
+    merges = any(c["op"] == "mergelast" for c in calls)
+    zero = any(c.get("kind") == "zero" for c in calls)
+    pool = THRS_NONNEG if zero else THRS
+    percall = (idx // 2) % 2 == 1                     # the threshold changes from call to call
+    # POISON in the buffers of a new object only when mergelast is never called (bloboverlaps indexes with the labels)
+    li = new_labelimage(labelimage, (ns, nf), poison=(not merges and idx % 2 == 0))
+    if not merges and idx % 4 == 0:
+        li.lastbl[:] = POISON
+    li.verbose = 0
+    probs, k = [], 0
+    said = "series on one labelimage object (%s)" % beh.get("mode", "?")
+    for q, c in enumerate(calls):
+        if c["op"] == "mergelast":
+            li.mergelast()
+            continue
+        thr = pool[(idx + (k if percall else 0)) % len(pool)]
+        dkind = SERIES_KINDS[(idx // 3 + k) % len(SERIES_KINDS)]
+        arr, t, above = series_frame(c["code"], c["kind"], ns, nf, thr, dkind, idx + k)
+        if c["op"] == "peaksearch":
+            li.peaksearch(arr, t, float(k))
+        else:
+            li.labelpeaks(arr, t)
+        k += 1
+        exp = np.array(c["labels"], np.int32).reshape(ns, nf)
+        what = None
+        if int(li.npk) != int(c["n"]):
+            what = "npk = %d, specification %d" % (int(li.npk), int(c["n"]))
+        elif li.blim.shape != exp.shape or not np.array_equal(li.blim, exp):
+            stale = int(((li.blim != 0) & ~above).sum())
+            what = "blim %s differs from specification %s (%d pixels not above the threshold carry a label)" % (
+                li.blim.ravel().tolist(), exp.ravel().tolist(), stale)
+        if what:
+            done = " ".join("%s(%s)" % (d["op"], "%d/%s" % (d["code"], d["kind"]) if "code" in d else "") for d in calls[:q + 1])
+            probs.append("%s: after call %d = labelimage.%s(frame %d/%s as %s, threshold %r) of [%s]: %s" % (
+                said, q + 1, c["op"], c["code"], c["kind"], dkind, t, done, what))
+            break
+    return probs
 
 
 @contextlib.contextmanager
@@ -388,8 +494,15 @@ def run_case(case, mods, idx=0):
     if "labelimage" in routes and con8 == 1:
         kind = LI_KINDS[(idx // len(THRS)) % len(LI_KINDS)]
         arr, t = li_input(kind, data, case["tern"], ns, nf, idx, thr)
-        blim, npk = run_labelpeaks(labelimage, arr, t, (ns, nf), verbose=verbose)
+        keep = {}
+        blim, npk = run_labelpeaks(labelimage, arr, t, (ns, nf), reuse=keep, verbose=verbose)
         cmp("labelimage.labelpeaks(%s input%s)" % (kind, ", verbose = %d" % verbose if verbose else ""), blim, exp_dense, npk)
+        # the same object again through peaksearch (the scripts' entry point), its buffer holding POISON once more
+        li = keep[(ns, nf)]
+        li.blim[:] = POISON
+        li.npk = POISON
+        li.peaksearch(arr, t, 0.0)
+        cmp("labelimage.peaksearch(%s input%s)" % (kind, ", verbose = %d" % verbose if verbose else ""), li.blim, exp_dense, li.npk)
     if con8 == 1 and ("sparse" in routes or "splat" in routes or "sparseframe" in routes or "frame" in routes):
         listed = tern > 0
         ii, jj = np.nonzero(listed)
@@ -435,7 +548,7 @@ def main():
             with open(out_path + ".cur", "w") as g:
                 g.write(str(idx))
             try:
-                p = run_case(case, mods, idx)
+                p = run_series(case, mods, idx) if "calls" in case else run_case(case, mods, idx)
             except Exception as e:          # noqa
                 p = ["exception %r" % (e,)]
             if p:
